@@ -1,33 +1,86 @@
 /-
-  CRModel.Frame — the read-only operations of commonroad-io as state transformers `St → St × Res Out` over
-  (observable state) + (hidden caches they touch).
+  CRModel.Frame — the read-only operations of commonroad-io as state transformers `step : Op → St → St × Res Out` over
+  (observable state) + (hidden caches they touch), for a selectable variant of the code (`Sem`: the tree as it is, the
+  pinned tree before the three `fix:` commits, two seeded changes).
 
-  Modelled code (commonroad-io, repaired tree; line numbers of that tree):
+  An operation's model reads and writes through the same records the observation `St.obs` reads: the occupancy computation
+  is a transformer of the trajectory's state list whose result is stored back, goal checks run on an object store whose
+  slot 0 is written back, the writers thread the goal-lanelet tables, the registry and merge queries write the lanelet's
+  registries back.  That these come back unchanged is proved for `Sem.repaired` (CRProofs/Frame.lean) and refuted for the
+  other variants (CRProps/C18.lean).
+
+  Modelled code (commonroad-io; line numbers of the repaired tree at the time of writing):
     prediction/prediction.py:122-140   Prediction.occupancy_at_time_step           → `Pred.occAt`, `findOcc`
     prediction/prediction.py:291-299   TrajectoryPrediction.occupancy_set (functools.cached_property) → `Pred.occSet`
-    prediction/prediction.py:390-410   TrajectoryPrediction._create_occupancy_set   → `createOccSet`  (`createOccSetOld` = before the repair)
-    scenario/obstacle.py:419-435       StaticObstacle.occupancy_at_time / state_at_time
-    scenario/obstacle.py:612-642       DynamicObstacle.occupancy_at_time / state_at_time
-    scenario/obstacle.py:797-820       PhantomObstacle.occupancy_at_time / state_at_time
-    scenario/obstacle.py:954-961       EnvironmentObstacle.occupancy_at_time
+    prediction/prediction.py:390-410   TrajectoryPrediction._create_occupancy_set   → `createOccLoop` / `createOccSet`, `createOccs`
+    scenario/obstacle.py:419-435, 612-642, 797-820, 954-961   occupancy_at_time / state_at_time of the four obstacle classes
     scenario/trajectory.py:133-143     Trajectory.state_at_time_step
-    scenario/scenario.py:1046-1071     Scenario.occupancies_at_time_step
-    scenario/scenario.py:1183-1201     Scenario.obstacle_states_at_time_step
-    scenario/lanelet.py:1296-1319      LaneletNetwork.__getstate__/__setstate__/__deepcopy__ (index dropped and rebuilt)
-    scenario/lanelet.py:1569-1599      LaneletNetwork._create_strtree
-    scenario/lanelet.py:1975-1997      LaneletNetwork.find_lanelet_by_position
-    scenario/traffic_light.py:165-178  TrafficLightCycle.cycle_init_timesteps (lazy `_cycle_init_timesteps`) / get_state_at_time_step
-    common/writer/file_writer_xml.py:981-1011         goal lanelets of a planning problem (`in`, then index)   → `goalLanelets`
-    common/writer/file_writer_xml.py:845-897          lanelet references are written inside the goal state's `position` element
-    common/writer/file_writer_protobuf.py:814-836     the same lookup after the repair; `goalLaneletsOld` = before (index only)
-    common/writer/file_writer_xml.py:938-962, file_writer_protobuf.py:635-656   states are written from `used_attributes`
+    scenario/scenario.py:1046-1071, 1131-1181, 1183-1201   occupancies_at_time_step, obstacles_by_position_intervals, obstacle_states_at_time_step
+    scenario/lanelet.py                 __getstate__/__setstate__/__deepcopy__, _create_strtree, find_lanelet_by_position, find_lanelet_by_shape,
+                                        get_obstacles, map_obstacles_to_lanelets, dynamic_obstacle_by_time_step, _merge_*_obstacles_on_lanelet,
+                                        merge_lanelets, all_lanelets_by_merging_{successors,predecessors}_from_lanelet
+    scenario/traffic_light.py:165-185  cycle_init_timesteps (lazy `_cycle_init_timesteps`) / get_state_at_time_step (C11's / C17's model function)
+    planning/goal.py:89-123, 196-228   GoalRegion.is_reached, _harmonize_state_types;  planning/planning_problem.py:86-96 goal_reached
+    visualization/mp_renderer.py:454-720, visualization/util.py:129-155, visualization/traffic_sign.py:509-515   which occupancy and
+                                        traffic-light queries draw_scenario + render issue
+    common/writer/file_writer_xml.py, file_writer_protobuf.py   goal lanelets of a planning problem (`in`, then index); states are
+                                        written from `used_attributes`; what else is read is in `Extra`
 
-  Values are opaque integer tokens (the harness interns every attribute value, shape and point); geometry is a parameter:
-  a lanelet carries the list of point tokens its polygon contains.  Core Lean only.
+  Values are opaque integer tokens (the harness interns every attribute value, shape and point); geometry and goal decisions
+  are parameters.  Core Lean only.
 -/
 import CRModel.Basic
 import CRModel.TrafficLight
+import CRModel.Cache
 namespace CR.Frame
+
+/-- Which variant of the code runs.  Every flag names one place where the code writes (or once wrote, or — in a seeded
+    change — would write) into an object the caller owns.  `repaired` (all flags off) is the code as it is; it is the
+    default instance, so the driver and every theorem that does not say otherwise are about it.  The other variants exist
+    so that the frame theorem is a statement that CAN fail: for each flag there is a theorem exhibiting the family of
+    states on which that variant changes the observable state. -/
+class Sem where
+  /-- before `fix: … no longer adds an orientation attribute`: `_create_occupancy_set` set `state.orientation` on the
+      trajectory's own state instead of on a copy (prediction.py:393-395 of the pinned tree) -/
+  occWritesOrientation : Bool
+  /-- before `fix: protobuf writer reads the goal lanelets … only if the table has an entry`: `table[i]` for every goal
+      index whenever the table is not None -/
+  pbIndexesTable : Bool
+  /-- before `fix: Lanelet.merge_lanelets no longer adds …`: the ids of the second lanelet were added to the registries of
+      the first one, which the merged lanelet then shared -/
+  mergeInPlace : Bool
+  /-- seeded: `_harmonize_state_types` with `state_new = state` instead of a deep copy -/
+  harmonizeNoCopy : Bool
+  /-- seeded: `dynamic_obstacle_by_time_step` as `dict.setdefault(t, set())` -/
+  dynByTimeInserts : Bool
+  deriving DecidableEq, Repr
+
+@[reducible] def Sem.repaired : Sem := ⟨false, false, false, false, false⟩
+/-- the pinned tree before the three `fix:` commits -/
+@[reducible] def Sem.legacy : Sem := ⟨true, true, true, false, false⟩
+/-- the two seeded changes -/
+@[reducible] def Sem.seeded : Sem := ⟨false, false, false, true, true⟩
+
+instance instSem : Sem := Sem.repaired
+
+/-- further observable attributes of an object: attribute name ↦ content token -/
+abbrev Attrs := List (String × Int)
+
+/-- Everything observable that no modelled operation looks into, one content token per public attribute (the harness interns
+    the reflective snapshot of the attribute's value): the scenario's own attributes (dt, scenario_id, author, tags,
+    affiliation, source, location); per obstacle its type, shape, signal states and series, meta information, history,
+    lanelet assignments, prediction extras; per lanelet its three vertex arrays, adjacency, line markings, types, users,
+    stop line, sign references, adjacent areas; the traffic signs; per traffic light position, direction, colour, shape,
+    `cycle.active`; the intersections; the network's information and areas.  The writers read all of it. -/
+structure Extra where
+  scenario : Attrs := []
+  network : Attrs := []
+  obstacles : List (Nat × Attrs) := []
+  lanelets : List (Nat × Attrs) := []
+  signs : List (Nat × Attrs) := []
+  lights : List (Nat × Attrs) := []
+  intersections : List (Nat × Attrs) := []
+  deriving DecidableEq, Repr, Inhabited
 
 /-! ## States -/
 
@@ -94,28 +147,127 @@ def occOfState (shape : Int) (s : TState) : Res Occ := do
   let p ← s.getattr "position"
   pure ⟨s.t, s.t, .placed shape p o⟩
 
-/-- `_create_occupancy_set` after the repair: the states are only read. -/
-def createOccSet (shape : Int) (states : List TState) : Res (List Occ) :=
+/-- the occupancies `_create_occupancy_set` computes, as a function of the states (used to state the cache invariant) -/
+def createOccs (shape : Int) (states : List TState) : Res (List Occ) :=
   states.mapM (occOfState shape)
 
-/-- `_create_occupancy_set` BEFORE the repair (prediction.py:393-395 of the pinned tree):
-    `if not hasattr(state, "orientation"): state.orientation = atan2(...)` writes into the state.  The new value is a
-    computed one; it is represented by the token `-1 - (index of the state)`.  Kept to state the defect as a theorem. -/
-def createOccSetOld (shape : Int) : List TState → Nat → List TState × Res (List Occ)
+/-- `_create_occupancy_set` (prediction.py:390-410) as a transformer of the trajectory's state list: (the states afterwards,
+    the occupancies).  For a state without `orientation` the heading is computed and stored in an `orientation` attribute —
+    of a `copy.copy` of the state (now), of the state itself (`occWritesOrientation`).  The stored value is a computed
+    one; it is represented by the token `-1 - (index of the state)`. -/
+def createOccLoop [sem : Sem] (shape : Int) : List TState → Nat → List TState × Res (List Occ)
   | [], _ => ([], .ok [])
   | s :: rest, i =>
     if s.hasattr "orientation" then
       match occOfState shape s with
       | .error e => (s :: rest, .error e)
-      | .ok o => let (rest', r) := createOccSetOld shape rest (i + 1); (s :: rest', (o :: ·) <$> r)
+      | .ok o => (s :: (createOccLoop shape rest (i + 1)).1, (o :: ·) <$> (createOccLoop shape rest (i + 1)).2)
     else
       match stateOri s with
       | .error e => (s :: rest, .error e)
-      | .ok _ =>
-        let s' := { s with attrs := s.attrs ++ [("orientation", some (-1 - (i : Int)))] }
-        match occOfState shape s' with
-        | .error e => (s' :: rest, .error e)
-        | .ok o => let (rest', r) := createOccSetOld shape rest (i + 1); (s' :: rest', (o :: ·) <$> r)
+      | .ok ori =>
+        -- the object that carries the computed heading, and what the trajectory's list holds afterwards
+        let withOri : TState := { s with attrs := s.attrs ++ [("orientation", some (-1 - (i : Int)))] }
+        let kept := if sem.occWritesOrientation then withOri else s
+        match s.getattr "position" with
+        | .error e => (kept :: rest, .error e)
+        | .ok p =>
+          (kept :: (createOccLoop shape rest (i + 1)).1,
+           ((⟨s.t, s.t, .placed shape p ori⟩ : Occ) :: ·) <$> (createOccLoop shape rest (i + 1)).2)
+
+def createOccSet [sem : Sem] (shape : Int) (states : List TState) : List TState × Res (List Occ) :=
+  createOccLoop shape states 0
+
+/-! ## Goal checks: a small object store, because what matters here is which object gets written -/
+
+/-- The objects a goal check handles: slot 0 is the caller's state, further slots are the objects the check creates. -/
+abbrev Heap := List TState
+
+/-- `setattr(state, a, v)`: overwrite an existing attribute, append a new one -/
+def TState.setattr (s : TState) (a : String) (v : Option Int) : TState :=
+  if s.attrs.any (·.1 == a) then { s with attrs := s.attrs.map fun (n, x) => if n == a then (n, v) else (n, x) }
+  else { s with attrs := s.attrs ++ [(a, v)] }
+
+/-- `state.used_attributes` without `time_step`, names only -/
+def TState.fields (s : TState) : List String := s.used.map (·.1)
+
+def goalNeedsHarmonize (stateFields goalFields : List String) : Bool :=
+  stateFields.contains "velocity" && stateFields.contains "velocity_y"
+    && (goalFields.contains "orientation" || goalFields.contains "velocity")
+    && !(goalFields.contains "velocity" && goalFields.contains "velocity_y")
+
+/-- `GoalRegion._harmonize_state_types` (goal.py:196-228).  `r` is the slot of the state that is checked.
+    `state_new = copy.deepcopy(state)` allocates slot `h.length`; a point-mass state (no `orientation` among its fields) is
+    rebuilt as a new `CustomState` in a further slot, otherwise the speed is written into the COPY.  `vTok`, `oTok` stand for
+    the computed speed `norm(vx, vy)` and heading `atan2(vy, vx)`.  Returns (store, slot of `state_new`, state fields). -/
+def harmonize (h : Heap) (r : Nat) (stateFields goalFields : List String) (vTok oTok : Int) : Heap × Nat × List String :=
+  let c := h.length
+  let h1 := h ++ [h.getD r default]
+  if goalNeedsHarmonize stateFields goalFields then
+    if !stateFields.contains "orientation" then
+      let sn := h1.getD c default
+      let st' : TState :=
+        (({ t := sn.t, oriProp := false, attrs := sn.attrs.filter (fun a => a.1 != "velocity_y") } : TState).setattr
+          "orientation" (some oTok)).setattr "velocity" (some vTok)
+      (h1 ++ [st'], c + 1, ("orientation" :: stateFields).filter (· != "velocity_y"))
+    else (h1.modify c (·.setattr "velocity" (some vTok)), c, stateFields.filter (· != "velocity_y"))
+  else (h1, c, stateFields)
+
+/-- the seeded variant `state_new = state` (no copy): the speed is written into the caller's state -/
+def harmonizeNoCopy (h : Heap) (r : Nat) (stateFields goalFields : List String) (vTok oTok : Int) : Heap × Nat × List String :=
+  if goalNeedsHarmonize stateFields goalFields then
+    if !stateFields.contains "orientation" then
+      let sn := h.getD r default
+      let st' : TState :=
+        (({ t := sn.t, oriProp := false, attrs := sn.attrs.filter (fun a => a.1 != "velocity_y") } : TState).setattr
+          "orientation" (some oTok)).setattr "velocity" (some vTok)
+      (h ++ [st'], h.length, ("orientation" :: stateFields).filter (· != "velocity_y"))
+    else (h.modify r (·.setattr "velocity" (some vTok)), r, stateFields.filter (· != "velocity_y"))
+  else (h, r, stateFields)
+
+/-- the loop of `GoalRegion.is_reached` (goal.py:89-123) over the goal states (each given by its populated attributes).
+    `goal_state_tmp = copy.deepcopy(goal_state)` is a fresh object that is only passed through; the decision whether the
+    harmonised state lies in goal state `i` is C08's subject and enters as `dec[i]` (a Boolean, or the exception the
+    comparison raises, e.g. for a state whose position is a region).  A goal attribute the state lacks is a ValueError.
+    Returns the store and `np.any(is_reached_list)`. -/
+def reachedLoop (harm : Heap → Nat → List String → List String → Int → Int → Heap × Nat × List String)
+    (h : Heap) (r : Nat) : List (List String) → List (Res Bool) → Heap × Res Bool
+  | [], _ => (h, .ok false)
+  | g :: gs, dec =>
+    let hr := harm h r (h.getD r default).fields g (-1) (-2)
+    if !(g.all hr.2.2.contains) then (hr.1, .error .value)
+    else
+      match dec.headD (.ok false) with
+      | .error e => (hr.1, .error e)
+      | .ok d => ((reachedLoop harm hr.1 r gs dec.tail).1, (fun b => d || b) <$> (reachedLoop harm hr.1 r gs dec.tail).2)
+
+/-- `GoalRegion.is_reached(state)`: (the caller's state afterwards, the answer) -/
+def harmonizeOf [sem : Sem] : Heap → Nat → List String → List String → Int → Int → Heap × Nat × List String :=
+  if sem.harmonizeNoCopy then harmonizeNoCopy else harmonize
+
+def isReached [sem : Sem] (goals : List (List String)) (st : TState) (dec : List (Res Bool)) : TState × Res Bool :=
+  (((reachedLoop harmonizeOf [st] 0 goals dec).1).getD 0 default, (reachedLoop harmonizeOf [st] 0 goals dec).2)
+
+/-- pair every state with its decision list (missing lists are empty) -/
+def zipDec : List TState → List (List (Res Bool)) → List (TState × List (Res Bool))
+  | [], _ => []
+  | s :: ss, [] => (s, []) :: zipDec ss []
+  | s :: ss, d :: ds => (s, d) :: zipDec ss ds
+
+/-- `PlanningProblem.goal_reached` (planning_problem.py:86-96): the states from the last to the first, the first hit wins.
+    The list comes in reversed; the answer is the index in the original order. -/
+def grLoop [sem : Sem] (goals : List (List String)) : List (TState × List (Res Bool)) → List TState × Res (Option Nat)
+  | [] => ([], .ok none)
+  | (st, dec) :: rest =>
+    match (isReached goals st dec).2 with
+    | .error e => ((isReached goals st dec).1 :: rest.map (·.1), .error e)
+    | .ok true => ((isReached goals st dec).1 :: rest.map (·.1), .ok (some rest.length))
+    | .ok false => ((isReached goals st dec).1 :: (grLoop goals rest).1, (grLoop goals rest).2)
+
+/-- (the trajectory states afterwards, `(True, i)` as `some i` / `(False, -1)` as `none`) -/
+def goalReachedStates [sem : Sem] (goals : List (List String)) (states : List TState) (decs : List (List (Res Bool))) :
+    List TState × Res (Option Nat) :=
+  ((grLoop goals (zipDec states decs).reverse).1.reverse, (grLoop goals (zipDec states decs).reverse).2)
 
 /-! ## Predictions -/
 
@@ -135,15 +287,16 @@ inductive Pred where
 
 def SOcc.toOcc (o : SOcc) : Occ := ⟨o.lo, o.hi, .fixed o.shape⟩
 
-/-- `prediction.occupancy_set` -/
-def Pred.occSet : Pred → Pred × Res (List Occ)
+/-- `prediction.occupancy_set`: the computation runs over the trajectory's own state list; what it leaves there is what the
+    prediction holds afterwards -/
+def Pred.occSet [sem : Sem] : Pred → Pred × Res (List Occ)
   | .absent => (.absent, .error .attr)                   -- `None.occupancy_set`
   | .setBased occs => (.setBased occs, .ok (occs.map SOcc.toOcc))
   | .traj t1 ss sh (some c) => (.traj t1 ss sh (some c), .ok c)
   | .traj t1 ss sh none =>
-    match createOccSet sh ss with
-    | .ok c => (.traj t1 ss sh (some c), .ok c)          -- cached_property stores the value
-    | .error e => (.traj t1 ss sh none, .error e)        -- nothing is stored when the computation raises
+    match (createOccSet sh ss).2 with
+    | .ok c => (.traj t1 (createOccSet sh ss).1 sh (some c), .ok c)          -- cached_property stores the value
+    | .error e => (.traj t1 (createOccSet sh ss).1 sh none, .error e)        -- nothing is stored when the computation raises
 
 /-- first occupancy whose time step (or interval) matches (prediction.py:128-135) -/
 def findOcc (t : Int) : List Occ → Option Occ
@@ -151,7 +304,7 @@ def findOcc (t : Int) : List Occ → Option Occ
   | o :: rest => if o.lo ≤ t ∧ t ≤ o.hi then some o else findOcc t rest
 
 /-- `prediction.occupancy_at_time_step(t)` -/
-def Pred.occAt (p : Pred) (t : Int) : Pred × Res (Option Occ) :=
+def Pred.occAt [sem : Sem] (p : Pred) (t : Int) : Pred × Res (Option Occ) :=
   (p.occSet.1, (findOcc t) <$> p.occSet.2)
 
 /-- `prediction.trajectory.state_at_time_step(t)` as an index into the state list (trajectory.py:140-142) -/
@@ -179,7 +332,7 @@ def Obstacle.role : Obstacle → Role
   | .static .. => .static | .dynamic .. => .dynamic | .phantom .. => .phantom | .environment .. => .environment
 
 /-- `obstacle.occupancy_at_time(t)` -/
-def Obstacle.occAt (o : Obstacle) (t : Int) : Obstacle × Res (Option Occ) :=
+def Obstacle.occAt [sem : Sem] (o : Obstacle) (t : Int) : Obstacle × Res (Option Occ) :=
   match o with
   | .static _ _ r => (o, .ok (some ⟨t, t, r⟩))
   | .environment _ sh => (o, .ok (some ⟨t, t, .fixed sh⟩))
@@ -230,7 +383,7 @@ def withObstacle {α : Type} (os : List Obstacle) (oid : Nat) (f : Obstacle → 
 
 /-- `Scenario.occupancies_at_time_step` loop: for every obstacle of the role, `occupancy_at_time(t)` is evaluated for its
     truth value and, when there is one, once more for the list. -/
-def occsLoop (t : Int) (role : Option Role) : List Obstacle → List Obstacle × Res (List Occ)
+def occsLoop [sem : Sem] (t : Int) (role : Option Role) : List Obstacle → List Obstacle × Res (List Occ)
   | [] => ([], .ok [])
   | o :: rest =>
     if role = none ∨ role = some o.role then
@@ -266,7 +419,15 @@ def statesAtIds (t : Int) (os : List Obstacle) : Res (List Nat) :=
 
 structure Lanelet where
   id : Nat
-  cells : List Int          -- tokens of the query points inside the (buffered) polygon
+  cells : List Int          -- tokens of the query points / query shapes the (buffered) polygon contains / intersects
+  succ : List Nat := []
+  pred : List Nat := []
+  /-- `static_obstacles_on_lanelet` (a set; kept as a list without duplicates) -/
+  staticObs : List Nat := []
+  /-- `dynamic_obstacles_on_lanelet` (dict time step ↦ set of obstacle ids, insertion order) -/
+  dynObs : List (Int × List Nat) := []
+  /-- `traffic_lights`: ids of the traffic lights that are valid for the lanelet -/
+  lights : List Nat := []
   deriving DecidableEq, Repr, Inhabited
 
 structure Net where
@@ -284,6 +445,95 @@ def Net.findPos (n : Net) (pts : List Int) : Res (List (List Nat)) :=
   | none => .error .attr
   | some ix => .ok (pts.map fun p => (ix.filter (·.cells.contains p)).map (·.id))
 
+/-- `find_lanelet_by_shape`: index query, then an exact intersection test per candidate (lanelet.py:1999-2014) -/
+def Net.findShape (n : Net) (shape : Int) : Res (List Nat) :=
+  match n.index with
+  | none => .error .attr
+  | some ix => .ok ((ix.filter (·.cells.contains shape)).map (·.id))
+
+/-- `Lanelet.dynamic_obstacle_by_time_step(t)` (lanelet.py:1040-1050): two `dict.get`, nothing is stored -/
+def Lanelet.dynByTime (l : Lanelet) (t : Int) : Lanelet × List Nat :=
+  match l.dynObs.lookup t with
+  | some ids => (l, ids)
+  | none => (l, [])
+
+/-- the seeded variant `return self.dynamic_obstacles_on_lanelet.setdefault(t, set())`: a query that inserts keys -/
+def Lanelet.dynByTimeSetdefault (l : Lanelet) (t : Int) : Lanelet × List Nat :=
+  match l.dynObs.lookup t with
+  | some ids => (l, ids)
+  | none => ({ l with dynObs := l.dynObs ++ [(t, [])] }, [])
+
+/-- the two obstacle registries of a lanelet -/
+structure Regs where
+  staticObs : List Nat
+  dynObs : List (Int × List Nat)
+  deriving DecidableEq, Repr, Inhabited
+
+def Lanelet.dynByTimeOf [sem : Sem] (l : Lanelet) (t : Int) : Lanelet × List Nat :=
+  if sem.dynByTimeInserts then l.dynByTimeSetdefault t else l.dynByTime t
+
+def Lanelet.regs (l : Lanelet) : Regs := ⟨l.staticObs, l.dynObs⟩
+
+def unionIds (a b : List Nat) : List Nat := a ++ b.filter (fun x => !a.contains x)
+
+/-- `_merge_dynamic_obstacles_on_lanelet` on the merged copy: add the ids of one time step -/
+def mergeDynStep (acc : List (Int × List Nat)) (t : Int) (ids : List Nat) : List (Int × List Nat) :=
+  if ids.isEmpty then acc else
+  match acc.lookup t with
+  | some _ => acc.map fun (t', x) => if t' == t then (t', unionIds x ids) else (t', x)
+  | none => acc ++ [(t, ids)]
+
+def mergeDyn (a b : List (Int × List Nat)) : List (Int × List Nat) :=
+  b.foldl (fun acc (t, ids) => mergeDynStep acc t ids) a
+
+/-- `Lanelet.merge_lanelets(l1, l2)` as far as the registries go, after the repair (lanelet.py:744-784): the registries of
+    the two arguments are copied, the merged ones are new objects.  Returns (registries of l1 afterwards, merged registries). -/
+def mergeRegs (a b : Regs) : Regs × Regs :=
+  (a, ⟨unionIds a.staticObs b.staticObs, mergeDyn a.dynObs b.dynObs⟩)
+
+/-- BEFORE the repair the ids of `l2` were added to the set / dict of `l1` itself, which the merged lanelet then shared -/
+def mergeRegsOld (a b : Regs) : Regs × Regs :=
+  (⟨unionIds a.staticObs b.staticObs, mergeDyn a.dynObs b.dynObs⟩, ⟨unionIds a.staticObs b.staticObs, mergeDyn a.dynObs b.dynObs⟩)
+
+def mergeRegsOf [sem : Sem] : Regs → Regs → Regs × Regs :=
+  if sem.mergeInPlace then mergeRegsOld else mergeRegs
+
+def findLanelet (ls : List Lanelet) (lid : Nat) : Option Lanelet := ls.find? (·.id == lid)
+
+/-- one path of `all_lanelets_by_merging_successors_from_lanelet` (lanelet.py:866-880): `pred = path[0]`, then
+    `pred = merge_lanelets(pred, lanelet)` along the path.  `cur` are the registries of `pred`, `first` those of the
+    network's own first lanelet (the only network object that is ever the first argument of a merge).
+    Returns (registries of the first lanelet afterwards, merged registries); a lanelet id that is not in the network gives
+    `None.lanelet_id`: AttributeError. -/
+def mergePath (merge : Regs → Regs → Regs × Regs) (ls : List Lanelet) (first cur : Regs) (isFirst : Bool) : List Nat → Regs × Res Regs
+  | [] => (first, .ok cur)
+  | lid :: rest =>
+    match findLanelet ls lid with
+    | none => (first, .error .attr)
+    | some l =>
+      let r := merge cur l.regs
+      -- only in the first merge of a path the first argument is the network's lanelet
+      mergePath merge ls (if isFirst then r.1 else first) r.2 false rest
+
+/-- write registries back into the network's lanelet `lid` (the first with that id, as `findLanelet`) -/
+def setRegs : List Lanelet → Nat → Regs → List Lanelet
+  | [], _, _ => []
+  | l :: rest, lid, r =>
+    if l.id == lid then { l with staticObs := r.staticObs, dynObs := r.dynObs } :: rest else l :: setRegs rest lid r
+
+/-- all paths, one after the other (each starts from the network's lanelet `lid` again) -/
+def mergePaths (merge : Regs → Regs → Regs × Regs) (lid : Nat) : List (List Nat) → List Lanelet → List Lanelet × Res (List Regs)
+  | [], ls => (ls, .ok [])
+  | path :: rest, ls =>
+    match findLanelet ls lid with
+    | none => (ls, .error .attr)
+    | some l =>
+      let r := mergePath merge ls l.regs l.regs true path
+      let ls' := setRegs ls lid r.1
+      match r.2 with
+      | .error e => (ls', .error e)
+      | .ok m => ((mergePaths merge lid rest ls').1, (m :: ·) <$> (mergePaths merge lid rest ls').2)
+
 /-- `LaneletNetwork.__deepcopy__`: (self afterwards, the copy).  `self._strtee = None`, attribute-wise deep copy,
     `result._create_strtree()`, `self._create_strtree()`. -/
 def Net.deepcopy (n : Net) : Net × Net :=
@@ -300,20 +550,13 @@ structure Light where
   off : Int
   /-- hidden: `_cycle_init_timesteps` -/
   cache : Option (List Int)
+  /-- `TrafficLight.active` (the renderer asks only active lights for their state) -/
+  active : Bool := true
   deriving DecidableEq, Repr, Inhabited
 
-/-- `get_state_at_time_step` with the init steps it reads through `cycle_init_timesteps` -/
-def stateWith (init : List Int) (es : List TL.Elem) (off t : Int) : Res Nat :=
-  match pyGet? init (-1) with
-  | none => .error .index
-  | some last =>
-    let period := last - off
-    if period = 0 then .error .zeroDiv else
-    let tm := (t - off) % period + off
-    let i : Int := (argmaxLt tm init : Int) - 1
-    match pyGet? es i with
-    | none => .error .index
-    | some e => .ok e.1
+/-- `get_state_at_time_step` reading a given `_cycle_init_timesteps` array: C11's model function (Python `%` as `Int.fmod`);
+    on the array of a fresh cycle it is C17's `TL.stateAt` (`CR.Cache.stateAtWith (TL.initSteps es off) es off t = TL.stateAt es off t` by `rfl`) -/
+abbrev stateWith := CR.Cache.stateAtWith
 
 def Light.stateAt (l : Light) (t : Int) : Light × Res Nat :=
   let init := l.cache.getD (TL.initSteps l.es l.off)
@@ -360,13 +603,25 @@ def goalLaneletsOld (tbl : Option Tbl) (i : Nat) : Option Tbl × Res (List Nat) 
   | none => (none, .ok [])
   | some t => let (t', r) := t.getItem i; (some t', r)
 
+/-- the protobuf writer's lookup in the variant that runs -/
+def pbLook [sem : Sem] : Option Tbl → Nat → Option Tbl × Res (List Nat) :=
+  if sem.pbIndexesTable then goalLaneletsOld else goalLanelets
+
 structure Problem where
   id : Nat
-  /-- one entry per goal state: does it populate `position`?  (the XML writer puts the lanelet references inside the
-      `position` element, file_writer_xml.py:893-897; the protobuf writer always writes them) -/
-  goals : List Bool
+  /-- `PlanningProblem.initial_state` -/
+  init : TState := default
+  /-- one entry per goal state: its populated attributes (`used_attributes`, `time_step` included) with their content
+      tokens.  The XML writer puts the lanelet references inside the `position` element (file_writer_xml.py:893-897), the
+      protobuf writer always writes them. -/
+  goals : List Attrs
   tbl : Option Tbl
   deriving DecidableEq, Repr, Inhabited
+
+/-- per goal state the names of its populated attributes, `time_step` left out (every state has one) -/
+def Problem.goalFields (p : Problem) : List (List String) := p.goals.map fun g => (g.map (·.1)).filter (· != "time_step")
+
+def Problem.hasPos (p : Problem) : List Bool := p.goalFields.map (·.contains "position")
 
 /-- all goal states of one problem, in order (`for i, state in enumerate(goal.state_list)`); `posOnly` = XML -/
 def goalLoop (look : Option Tbl → Nat → Option Tbl × Res (List Nat)) (posOnly : Bool) (tbl : Option Tbl) :
@@ -380,13 +635,21 @@ def goalLoop (look : Option Tbl → Nat → Option Tbl × Res (List Nat)) (posOn
       let (tbl2, rs) := goalLoop look posOnly tbl1 rest (i + 1)
       (tbl2, ((if posOnly && !hasPos then [] else ids) :: ·) <$> rs)
 
+/-- what a writer puts into the file for one planning problem -/
+structure ProbFile where
+  id : Nat
+  init : List (String × Int)          -- populated attributes of the initial state
+  goals : List Attrs                  -- the goal states
+  goalLanelets : List (List Nat)      -- per goal state the lanelet references
+  deriving DecidableEq, Repr, Inhabited
+
 def Problem.write (look : Option Tbl → Nat → Option Tbl × Res (List Nat)) (posOnly : Bool) (p : Problem) :
-    Problem × Res (Nat × List (List Nat)) :=
-  let (tbl', r) := goalLoop look posOnly p.tbl p.goals 0
-  ({ p with tbl := tbl' }, (fun l => (p.id, l)) <$> r)
+    Problem × Res ProbFile :=
+  let (tbl', r) := goalLoop look posOnly p.tbl p.hasPos 0
+  ({ p with tbl := tbl' }, (fun l => (⟨p.id, p.init.used, p.goals, l⟩ : ProbFile)) <$> r)
 
 def problemsWrite (look : Option Tbl → Nat → Option Tbl × Res (List Nat)) (posOnly : Bool) :
-    List Problem → List Problem × Res (List (Nat × List (List Nat)))
+    List Problem → List Problem × Res (List ProbFile)
   | [] => ([], .ok [])
   | p :: rest =>
     let (p', r) := p.write look posOnly
@@ -401,6 +664,7 @@ structure St where
   net : Net
   lights : List Light
   problems : List Problem
+  extra : Extra := {}
   deriving DecidableEq, Repr, Inhabited
 
 def Pred.obs : Pred → Pred
@@ -419,7 +683,8 @@ def St.obs (s : St) : St :=
   { obstacles := s.obstacles.map Obstacle.obs
     net := { s.net with index := none }
     lights := s.lights.map Light.obs
-    problems := s.problems }
+    problems := s.problems
+    extra := s.extra }
 
 /-- What a writer puts into the file, abstractly: per obstacle its id, the populated attributes of its initial state and of
     every trajectory state (or the occupancies of a set-based prediction); per planning problem the goal lanelets of every
@@ -431,9 +696,31 @@ structure ObsFile where
   occs : List SOcc
   deriving DecidableEq, Repr, Inhabited
 
+/-- lanelet as a writer reads it: id, successors, predecessors, traffic-light references (its other attributes are in
+    `Extra.lanelets`; the obstacle registries are not written) -/
+structure LaneletFile where
+  id : Nat
+  succ : List Nat
+  pred : List Nat
+  lights : List Nat
+  deriving DecidableEq, Repr, Inhabited
+
+structure LightFile where
+  id : Nat
+  es : List TL.Elem
+  off : Int
+  active : Bool
+  deriving DecidableEq, Repr, Inhabited
+
+def Lanelet.file (l : Lanelet) : LaneletFile := ⟨l.id, l.succ, l.pred, l.lights⟩
+def Light.file (l : Light) : LightFile := ⟨l.id, l.es, l.off, l.active⟩
+
 structure FileAbs where
   obstacles : List ObsFile
-  problems : List (Nat × List (List Nat))
+  problems : List ProbFile
+  lanelets : List LaneletFile
+  lights : List LightFile
+  extra : Extra
   deriving DecidableEq, Repr, Inhabited
 
 def Pred.fileStates : Pred → List (Int × List (String × Int))
@@ -455,8 +742,131 @@ def St.write (look : Option Tbl → Nat → Option Tbl × Res (List Nat)) (posOn
     St × Res FileAbs :=
   if withProblems then
     let (ps, r) := problemsWrite look posOnly s.problems
-    ({ s with problems := ps }, (fun l => ⟨s.obstacles.map Obstacle.file, l⟩) <$> r)
-  else (s, .ok ⟨s.obstacles.map Obstacle.file, []⟩)
+    ({ s with problems := ps },
+     (fun l => ⟨s.obstacles.map Obstacle.file, l, s.net.lanelets.map Lanelet.file, s.lights.map Light.file, s.extra⟩) <$> r)
+  else (s, .ok ⟨s.obstacles.map Obstacle.file, [], s.net.lanelets.map Lanelet.file, s.lights.map Light.file, s.extra⟩)
+
+/-! ## Operations that read occupancies: the queries they issue, as a function of the observable state -/
+
+/-- one step of such an operation: an occupancy query (`must`: the code dereferences the answer, `None` is an
+    AttributeError) or a failure the code runs into at this point -/
+inductive Q where
+  | occ (oid : Nat) (t : Int) (must : Bool)
+  | fail (e : Err)
+  deriving DecidableEq, Repr, Inhabited
+
+/-- run the queries in order, stop at the first exception -/
+def occQueries [sem : Sem] : List Q → List Obstacle → List Obstacle × Res (List (Option Occ))
+  | [], os => (os, .ok [])
+  | .fail e :: _, os => (os, .error e)
+  | .occ oid t must :: rest, os =>
+    match (withObstacle os oid (fun o => o.occAt t)).2 with
+    | .error e => ((withObstacle os oid (fun o => o.occAt t)).1, .error e)
+    | .ok a =>
+      if must && a.isNone then ((withObstacle os oid (fun o => o.occAt t)).1, .error .attr)
+      else ((occQueries rest (withObstacle os oid (fun o => o.occAt t)).1).1,
+            (a :: ·) <$> (occQueries rest (withObstacle os oid (fun o => o.occAt t)).1).2)
+
+def Pred.isTraj : Pred → Bool
+  | .traj .. => true
+  | _ => false
+
+def Pred.isAbsent : Pred → Bool
+  | .absent => true
+  | _ => false
+
+def Pred.isSet : Pred → Bool
+  | .setBased _ => true
+  | _ => false
+
+/-- `prediction.final_time_step`: the time step of the last trajectory state; for a set-based prediction the largest end of
+    its occupancies (an approximation of `max` over a mix of ints and Intervals — it only decides whether a set-based
+    obstacle is drawn, which touches no hidden state) -/
+def Pred.finalT : Pred → Option Int
+  | .absent => none
+  | .setBased occs => (occs.map (·.hi)).max?
+  | .traj _ ss _ _ => ss.getLast?.map (·.t)
+
+def rangeInt (a b : Int) : List Int := (List.range (b - a).toNat).map (fun (i : Nat) => a + (i : Int))
+
+/-- parameters of one draw + render -/
+structure DrawP where
+  scenario : Bool          -- `scenario.draw(renderer)` is part of the call (else only the planning problems are drawn)
+  tb : Int                 -- time_begin
+  te : Int                 -- time_end
+  drawOcc : Bool           -- occupancy.draw_occupancies (dynamic and phantom obstacles)
+  drawIcon : Bool          -- dynamic_obstacle.draw_icon
+  iconIds : List Nat       -- obstacles whose type has an icon and whose shape has `length` and `width`
+  history : Nat            -- 0: history.draw_history off; else history.steps (step_size 1)
+  deriving DecidableEq, Repr, Inhabited
+
+/-- `MPRenderer.draw_dynamic_obstacle` (mp_renderer.py:505-643): the occupancy queries, in order -/
+def dynDrawQs (p : DrawP) (oid : Nat) (init : TState) (pr : Pred) : List Q :=
+  if (pr.isAbsent ∧ init.t < p.tb) ∨ init.t > p.te then [] else
+  if (!pr.isAbsent ∧ pr.finalT.getD init.t < p.tb) ∨ init.t > p.te then [] else
+  let hist := if pr.isTraj then (List.range p.history).reverse.map (fun (i : Nat) => Q.occ oid (p.tb - ((i : Int) + 1)) false) else []
+  let icon := p.drawIcon && p.iconIds.contains oid && pr.isTraj
+  -- the icon is placed with the position and orientation of the state at time_begin
+  let iconFail : List Q :=
+    if icon && p.tb != init.t then
+      match pr with
+      | .traj t1 ss _ _ =>
+        match trajIndex t1 ss.length p.tb with
+        | some i => if (ss.getD i default).hasattr "orientation" then [] else [Q.fail .attr]
+        | none => []
+      | _ => []
+    else []
+  let shape := !icon
+  hist ++ iconFail ++ (if shape then [Q.occ oid p.tb false] else []) ++ [Q.occ oid p.tb false]     -- shape, then signals
+    ++ (if p.drawOcc || pr.isSet then (rangeInt (if shape then p.tb + 1 else p.tb) p.te).map (fun t => Q.occ oid t false) else [])
+
+/-- `draw_scenario`: all obstacles in the order of `Scenario.obstacles` (mp_renderer.py:454-472, 474-489, 645-700) -/
+def drawQs (p : DrawP) : List Obstacle → List Q
+  | [] => []
+  | .static i _ _ :: rest => Q.occ i p.tb false :: drawQs p rest
+  | .dynamic i init _ pr :: rest => dynDrawQs p i init pr ++ drawQs p rest
+  | .phantom i _ :: rest =>
+    (Q.occ i p.tb false :: (if p.drawOcc then (rangeInt (p.tb + 1) p.te).map (fun t => Q.occ i t false) else [])) ++ drawQs p rest
+  | .environment i _ :: rest => Q.occ i p.tb true :: drawQs p rest
+
+/-- `render()`: every active traffic light that was drawn is asked for its state at time_begin (traffic_sign.py:509-515) -/
+def renderLights (tb : Int) : List Light → List Light
+  | [] => []
+  | l :: rest => (if l.active then (l.stateAt tb).1 else l) :: renderLights tb rest
+
+/-- `obstacles_by_position_intervals(intervals, time_step = t)` with the default roles (scenario.py:1131-1181): one query
+    per dynamic obstacle.  `inside` lists the obstacles for which the geometric test holds (no `center`, or centre in the
+    intervals; for static obstacles: initial position in the intervals). -/
+def byIntervalsQs (t : Int) (os : List Obstacle) : List Q :=
+  (os.filter (·.role == .dynamic)).map (fun o => Q.occ o.id t false)
+
+def pickByAnswers : List Nat → List (Option Occ) → List Nat → List Nat
+  | i :: is, a :: as, inside => (if a.isSome && inside.contains i then [i] else []) ++ pickByAnswers is as inside
+  | _, _, _ => []
+
+/-- `LaneletNetwork.map_obstacles_to_lanelets(obstacles)` / `Lanelet.get_obstacles(obstacles, t)` (lanelet.py:706-742,
+    2074-2091): for every lanelet, for every given obstacle, `o.occupancy_at_time(t).shape`. -/
+def lanesObstaclesQs (lids : List Nat) (oids : List Nat) (t : Int) : List Q :=
+  lids.flatMap fun _ => oids.map fun o => Q.occ o t true
+
+/-- the state a goal check is applied to: one that is passed in from outside, or one the scenario owns -/
+inductive StLoc where
+  | foreign (st : TState)
+  | obsInit (oid : Nat)                  -- obstacle.initial_state
+  | obsTraj (oid : Nat) (i : Nat)        -- obstacle.prediction.trajectory.state_list[i]
+  | probInit                             -- the planning problem's own initial_state
+  deriving DecidableEq, Repr, Inhabited
+
+inductive TrajSrc where
+  | foreign (states : List TState)
+  | own (oid : Nat)                      -- obstacle.prediction.trajectory
+  deriving DecidableEq, Repr, Inhabited
+
+inductive Target where
+  | scenario | problems | net
+  | obstacle (oid : Nat)
+  | problem (pid : Nat)
+  deriving DecidableEq, Repr, Inhabited
 
 inductive Op where
   | occ (oid : Nat) (t : Int)                      -- obstacle.occupancy_at_time
@@ -466,11 +876,25 @@ inductive Op where
   | occSet (oid : Nat)                             -- obstacle.prediction.occupancy_set
   | findPos (pts : List Int)                       -- lanelet_network.find_lanelet_by_position
   | light (lid : Nat) (t : Int)                    -- traffic_light.get_state_at_time_step
-  /-- operations that only read the objects or work on deep copies and, while doing so, evaluate `prediction.occupancy_set`
-      of the listed obstacles and `cycle_init_timesteps` of the listed traffic lights (GoalRegion.is_reached, goal_reached,
-      ==, hash, copy.copy, str, obstacles_by_position_intervals, Lanelet.get_obstacles, draw + render, …; which caches an
-      operation touches is recorded from the run) -/
+  /-- what is left without an explicit model: `str`/`repr`, `obstacles_by_role_and_type`, `signal_state_at_time_step`,
+      `prediction.final_time_step`, `Trajectory.states_in_time_interval`, geometric lanelet queries (`contains_points`,
+      `interpolate_position`, `orientation_by_position`, `polygon`, `distance`, `find_lanelet_successors_in_range`, …),
+      `lanelets_in_proximity`, `find_most_likely_lanelet_by_state`, the copying constructors
+      `LaneletNetwork.create_from_lanelet_network / _list`.  They read only; should one of them evaluate
+      `prediction.occupancy_set` or `cycle_init_timesteps`, the obstacles / lights concerned are recorded from the run. -/
   | reads (occSets : List Nat) (lightIds : List Nat)
+  | reached (pid : Nat) (loc : StLoc) (dec : List (Res Bool))               -- GoalRegion.is_reached(state)
+  | goalReached (pid : Nat) (src : TrajSrc) (decs : List (List (Res Bool))) -- PlanningProblem.goal_reached(trajectory)
+  | eq (tgt : Target)                                                 -- x == x, x == twin, twin == x
+  | hash (tgt : Target)                                               -- hash(x)
+  | shallowCopy (tgt : Target)                                        -- copy.copy(x)
+  | byIntervals (t : Int) (inside : List Nat)                         -- scenario.obstacles_by_position_intervals
+  | findShape (shape : Int)                                           -- lanelet_network.find_lanelet_by_shape
+  | mapObstacles (oids : List Nat) (rel : List (Nat × Nat))           -- lanelet_network.map_obstacles_to_lanelets
+  | getObstacles (lid : Nat) (oids : List Nat) (t : Int) (rel : List (Nat × Nat))   -- lanelet.get_obstacles
+  | dynByTime (lid : Nat) (t : Int)                                   -- lanelet.dynamic_obstacle_by_time_step
+  | mergeFrom (lid : Nat) (paths : List (List Nat))                   -- Lanelet.all_lanelets_by_merging_{successors,predecessors}_from_lanelet
+  | draw (p : DrawP)                                                  -- scenario.draw / planning_problem_set.draw, renderer.render
   | deepcopy                                       -- copy.deepcopy(scenario)
   | pickle                                         -- pickle.loads(pickle.dumps(scenario))
   | writeXml (withProblems : Bool)
@@ -487,32 +911,72 @@ inductive Out where
   | nat (n : Nat)
   | file (f : FileAbs)
   | copy (s : St)
+  | bool (b : Bool)
+  | reach (i : Option Nat)
+  | mapping (m : List (Nat × List Nat))
+  | regs (l : List Regs)
   deriving DecidableEq, Repr, Inhabited
 
 /-- evaluate `obstacle.prediction.occupancy_set` and drop the answer -/
-def touchOccSet (o : Obstacle) : Obstacle × Res Unit :=
+def touchOccSet [sem : Sem] (o : Obstacle) : Obstacle × Res Unit :=
   match o with
   | .dynamic i init reg p => (.dynamic i init reg p.occSet.1, .ok ())
   | .phantom i p => (.phantom i p.occSet.1, .ok ())
   | o => (o, .ok ())
 
-def runOccQs : List Nat → List Obstacle → List Obstacle
+def runOccQs [sem : Sem] : List Nat → List Obstacle → List Obstacle
   | [], os => os
   | oid :: rest, os => runOccQs rest (withObstacle os oid touchOccSet).1
 
-def runLightQs : List Nat → List Light → List Light
+def runLightQsAt (t : Int) : List Nat → List Light → List Light
   | [], ls => ls
-  | lid :: rest, ls => runLightQs rest (withLight ls lid 0).1
+  | lid :: rest, ls => runLightQsAt t rest (withLight ls lid t).1
+
+def runLightQs : List Nat → List Light → List Light := runLightQsAt 0
 
 /-- `obstacle.prediction.occupancy_set` (static and environment obstacles have no `prediction`: AttributeError) -/
-def Obstacle.occSet (o : Obstacle) : Obstacle × Res (List Occ) :=
+def Obstacle.occSet [sem : Sem] (o : Obstacle) : Obstacle × Res (List Occ) :=
   match o with
   | .dynamic i init reg p => (.dynamic i init reg p.occSet.1, p.occSet.2)
   | .phantom i p => (.phantom i p.occSet.1, p.occSet.2)
   | o => (o, .error .attr)
 
+/-- goal check on a state the obstacle owns: (obstacle afterwards — its state is written back from the store —, answer) -/
+def Obstacle.reach [sem : Sem] (goals : List (List String)) (ix : Option Nat) (dec : List (Res Bool)) (o : Obstacle) : Obstacle × Res Bool :=
+  match o, ix with
+  | .static i init r, none => (.static i (isReached goals init dec).1 r, (isReached goals init dec).2)
+  | .dynamic i init r p, none => (.dynamic i (isReached goals init dec).1 r p, (isReached goals init dec).2)
+  | .dynamic i init r (.traj t1 ss sh c), some k =>
+    match ss[k]? with
+    | none => (o, .error .attr)            -- `state_at_time` gave None: `None.used_attributes`
+    | some st => (.dynamic i init r (.traj t1 (ss.set k (isReached goals st dec).1) sh c), (isReached goals st dec).2)
+  | o, _ => (o, .error .attr)
+
+def Obstacle.goalReach [sem : Sem] (goals : List (List String)) (decs : List (List (Res Bool))) (o : Obstacle) : Obstacle × Res (Option Nat) :=
+  match o with
+  | .dynamic i init r (.traj t1 ss sh c) =>
+    (.dynamic i init r (.traj t1 (goalReachedStates goals ss decs).1 sh c), (goalReachedStates goals ss decs).2)
+  | o => (o, .error .attr)
+
+def findProblem (ps : List Problem) (pid : Nat) : Option Problem := ps.find? (·.id == pid)
+
+/-- apply `f` to the planning problem `pid` (`planning_problem_dict[pid]`: KeyError when missing) -/
+def withProblem {α : Type} (ps : List Problem) (pid : Nat) (f : Problem → Problem × Res α) : List Problem × Res α :=
+  match ps with
+  | [] => ([], .error .key)
+  | p :: rest =>
+    if p.id = pid then ((f p).1 :: rest, (f p).2)
+    else (p :: (withProblem rest pid f).1, (withProblem rest pid f).2)
+
+/-- goal check on the planning problem's own initial state -/
+def Problem.reachInit [sem : Sem] (dec : List (Res Bool)) (q : Problem) : Problem × Res Bool :=
+  ({ q with init := (isReached q.goalFields q.init dec).1 }, (isReached q.goalFields q.init dec).2)
+
+def mappingOf (rel : List (Nat × Nat)) (lids oids : List Nat) : List (Nat × List Nat) :=
+  (lids.map fun l => (l, oids.filter fun o => rel.contains (l, o))).filter (fun x => !x.2.isEmpty)
+
 /-- One read-only operation. -/
-def step (op : Op) (s : St) : St × Res Out :=
+def step [sem : Sem] (op : Op) (s : St) : St × Res Out :=
   match op with
   | .occ oid t =>
     ({ s with obstacles := (withObstacle s.obstacles oid (fun o => o.occAt t)).1 },
@@ -535,22 +999,85 @@ def step (op : Op) (s : St) : St × Res Out :=
   | .deepcopy => ({ s with net := s.net.deepcopy.1 }, .ok (.copy { s with net := s.net.deepcopy.2 }))
   | .pickle => ({ s with net := s.net.pickle.1 }, .ok (.copy { s with net := s.net.pickle.2 }))
   | .writeXml wp => ((s.write goalLanelets true wp).1, Out.file <$> (s.write goalLanelets true wp).2)
-  | .writePb wp => ((s.write goalLanelets false wp).1, Out.file <$> (s.write goalLanelets false wp).2)
+  | .writePb wp => ((s.write pbLook false wp).1, Out.file <$> (s.write pbLook false wp).2)
+  | .reached pid loc dec =>
+    match findProblem s.problems pid with
+    | none => (s, .error .key)
+    | some pr =>
+      match loc with
+      | .foreign st => (s, Out.bool <$> (isReached pr.goalFields st dec).2)
+      | .obsInit oid =>
+        ({ s with obstacles := (withObstacle s.obstacles oid (Obstacle.reach pr.goalFields none dec)).1 },
+         Out.bool <$> (withObstacle s.obstacles oid (Obstacle.reach pr.goalFields none dec)).2)
+      | .obsTraj oid i =>
+        ({ s with obstacles := (withObstacle s.obstacles oid (Obstacle.reach pr.goalFields (some i) dec)).1 },
+         Out.bool <$> (withObstacle s.obstacles oid (Obstacle.reach pr.goalFields (some i) dec)).2)
+      | .probInit =>
+        ({ s with problems := (withProblem s.problems pid (Problem.reachInit dec)).1 },
+         Out.bool <$> (withProblem s.problems pid (Problem.reachInit dec)).2)
+  | .goalReached pid src decs =>
+    match findProblem s.problems pid with
+    | none => (s, .error .key)
+    | some pr =>
+      match src with
+      | .foreign states => (s, Out.reach <$> (goalReachedStates pr.goalFields states decs).2)
+      | .own oid =>
+        ({ s with obstacles := (withObstacle s.obstacles oid (Obstacle.goalReach pr.goalFields decs)).1 },
+         Out.reach <$> (withObstacle s.obstacles oid (Obstacle.goalReach pr.goalFields decs)).2)
+  -- `__eq__` compares the attribute tables of the target (with itself and with an equal twin): pure reads
+  | .eq _ => (s, .ok (.bool true))
+  -- `__hash__` hashes the same attribute tables: pure reads
+  | .hash _ => (s, .ok .unit)
+  -- `copy.copy`: a new top-level object that shares every child, hidden caches included; a LaneletNetwork goes through
+  -- `__getstate__` / `__setstate__`, so the copy gets an index of its own
+  | .shallowCopy tgt => (s, .ok (.copy (if tgt = .net then { s with net := s.net.pickle.2 } else s)))
+  | .byIntervals t inside =>
+    ({ s with obstacles := (occQueries (byIntervalsQs t s.obstacles) s.obstacles).1 },
+     (fun ans => Out.ids (pickByAnswers ((s.obstacles.filter (·.role == .dynamic)).map (·.id)) ans inside
+        ++ ((s.obstacles.filter (·.role == .static)).map (·.id)).filter inside.contains))
+       <$> (occQueries (byIntervalsQs t s.obstacles) s.obstacles).2)
+  | .findShape sh => (s, Out.ids <$> s.net.findShape sh)
+  | .mapObstacles oids rel =>
+    ({ s with obstacles := (occQueries (lanesObstaclesQs (s.net.lanelets.map (·.id)) oids 0) s.obstacles).1 },
+     (fun _ => Out.mapping (mappingOf rel (s.net.lanelets.map (·.id)) oids))
+       <$> (occQueries (lanesObstaclesQs (s.net.lanelets.map (·.id)) oids 0) s.obstacles).2)
+  | .getObstacles lid oids t rel =>
+    ({ s with obstacles := (occQueries (lanesObstaclesQs [lid] oids t) s.obstacles).1 },
+     (fun _ => Out.ids (oids.filter fun o => rel.contains (lid, o))) <$> (occQueries (lanesObstaclesQs [lid] oids t) s.obstacles).2)
+  | .dynByTime lid t =>
+    match findLanelet s.net.lanelets lid with
+    | none => (s, .error .attr)
+    | some l => ({ s with net := { s.net with lanelets := setRegs s.net.lanelets lid (l.dynByTimeOf t).1.regs } }, .ok (.ids (l.dynByTimeOf t).2))
+  | .mergeFrom lid paths =>
+    ({ s with net := { s.net with lanelets := (mergePaths mergeRegsOf lid paths s.net.lanelets).1 } },
+     Out.regs <$> (mergePaths mergeRegsOf lid paths s.net.lanelets).2)
+  | .draw p =>
+    -- the planning problems are drawn from their own attributes; nothing hidden is touched
+    if !p.scenario then (s, .ok .unit) else
+    -- the lanelet network comes first: the centre line of a lanelet is coloured by the state of its traffic lights at
+    -- time_begin (visualization/util.py:129-155); then the obstacles; `render()` asks the active lights again
+    match (occQueries (drawQs p s.obstacles) s.obstacles).2 with
+    | .error e =>
+      ({ s with obstacles := (occQueries (drawQs p s.obstacles) s.obstacles).1,
+                lights := runLightQsAt p.tb (s.net.lanelets.flatMap (·.lights)) s.lights }, .error e)
+    | .ok _ =>
+      ({ s with obstacles := (occQueries (drawQs p s.obstacles) s.obstacles).1,
+                lights := renderLights p.tb (runLightQsAt p.tb (s.net.lanelets.flatMap (·.lights)) s.lights) }, .ok .unit)
 
 /-- A sequence of read-only operations (answers dropped). -/
-def run : List Op → St → St
+def run [sem : Sem] : List Op → St → St
   | [], s => s
   | op :: rest, s => run rest (step op s).1
 
 /-- the same, keeping every intermediate state and answer (used by the driver) -/
-def trace : List Op → St → List (St × Res Out)
+def trace [sem : Sem] : List Op → St → List (St × Res Out)
   | [], _ => []
   | op :: rest, s => let r := step op s; r :: trace rest r.1
 
 /-- The hidden caches are consistent: an occupancy cache holds what `_create_occupancy_set` computes from the states, the
     index is over the lanelets, a light cache holds the init steps of its cycle. -/
 def Pred.Inv : Pred → Prop
-  | .traj _ ss sh (some c) => createOccSet sh ss = .ok c
+  | .traj _ ss sh (some c) => createOccs sh ss = .ok c
   | _ => True
 
 def Obstacle.Inv : Obstacle → Prop
@@ -564,10 +1091,5 @@ structure St.Inv (s : St) : Prop where
   obstacles : ∀ o ∈ s.obstacles, o.Inv
   net : s.net.index = none ∨ s.net.index = some s.net.lanelets
   lights : ∀ l ∈ s.lights, l.Inv
-
-/-! ## The unrepaired protobuf writer and occupancy computation (for the defect theorems) -/
-
-def stepPbOld (wp : Bool) (s : St) : St × Res Out :=
-  ((s.write goalLaneletsOld false wp).1, Out.file <$> (s.write goalLaneletsOld false wp).2)
 
 end CR.Frame
